@@ -1500,7 +1500,12 @@ func (r *Run) RequireGuards(a *FnA, rule, con string, target ssa.Instruction, gu
 		for _, alt := range g.Alt {
 			specs = append(specs, Spec(alt.Pattern, alt.Holds, alt.Filter))
 		}
-		ok := n > 0 && a.EveryPathTakes(target, a.IfEdgesAlt(specs...))
+		altEdges := a.IfEdgesAlt(specs...)
+		if n == 0 && len(g.Alt) > 0 {
+			// the guard may exist only in one of its alternative forms
+			n = len(altEdges)
+		}
+		ok := n > 0 && a.EveryPathTakes(target, altEdges)
 		want := g.Pattern
 		if !g.Holds {
 			want = "not " + want
